@@ -35,7 +35,7 @@ type respVariant struct {
 var c13Status = []int{101, 200, 204, 400, 403, 500}
 var c13Conn = []respVariant{{"Upgrade", false, true, false}, {"upgrade", false, true, false}, {"keep-alive, Upgrade", false, true, false}, {"keep-alive", false, false, false}, {"", true, false, false}}
 var c13Upg = []respVariant{{"websocket", false, true, false}, {"WebSocket", false, true, false}, {"foo, websocket", false, true, false}, {"h2c", false, false, false}, {"", true, false, false}}
-var c13Accept = []string{"correct", "other-key", "missing", "truncated"}
+var c13Accept = []string{"correct", "other-key", "missing", "truncated", "case-swapped", "padded", "doubled-header", "correct-plus-garbage"}
 var c13Proto = []string{"none", "requested", "requested-other-case", "not-requested"}
 
 type extVariant struct {
@@ -202,6 +202,25 @@ func runC13(r *Run) {
 		case 3:
 			k := AcceptKey(rec.key)
 			fmt.Fprintf(&resp, "Sec-WebSocket-Accept: %s\r\n", k[:len(k)-3])
+		case 4:
+			// base64 is case sensitive: the right letters in the other case are a wrong value
+			k := []byte(AcceptKey(rec.key))
+			for i, b := range k {
+				switch {
+				case b >= 'a' && b <= 'z':
+					k[i] = b - 32
+				case b >= 'A' && b <= 'Z':
+					k[i] = b + 32
+				}
+			}
+			fmt.Fprintf(&resp, "Sec-WebSocket-Accept: %s\r\n", k)
+		case 5:
+			fmt.Fprintf(&resp, "Sec-WebSocket-Accept: %s=\r\n", AcceptKey(rec.key))
+		case 6:
+			fmt.Fprintf(&resp, "Sec-WebSocket-Accept: %s\r\n", AcceptKey(base64.StdEncoding.EncodeToString([]byte("another-key-0123"))))
+			fmt.Fprintf(&resp, "Sec-WebSocket-Accept: %s\r\n", AcceptKey(rec.key))
+		case 7:
+			fmt.Fprintf(&resp, "Sec-WebSocket-Accept: %s, x\r\n", AcceptKey(rec.key))
 		}
 		switch pi {
 		case 1:
